@@ -46,7 +46,10 @@ macro_rules! df {
                 let mut value = *value;
                 $(
                     if value >= $bias {
-                        value -= $bias;
+                        value = match BiasSub::bias_sub(value, $bias) {
+                            Some(v) => v,
+                            None => return Err(RtcmError::OutOfRange),
+                        };
                     } else {
                         return Err(RtcmError::OutOfRange);
                     }
